@@ -875,30 +875,39 @@ def _g_set(rng, field):
     return []
 
 
-def _g_leaf(rng, pfx, malformed):
+def _g_bad_leaf(rng, pfx):
+    """a condition whose construction fails (ValueError / AttributeError)"""
     f = pfx + rng.choice(_FIELDS)
-    if malformed and rng.random() < 0.5:
-        k = rng.randrange(9)
-        if k == 0:
-            return ("T", f, rng.choice(["==", "<>", "IS", "BETWEEN", "", "NOT  IN", " =", "= ", "IN ", "NOT", "ISNULL", "~"]),
-                    ("S", _g_value(rng, f)))
-        if k == 1:
-            return ("T", f, _case_op(rng, rng.choice(["IN", "NOT IN"])), ("S", _g_value(rng, f)))
-        if k == 2:
-            a = rng.choice([("S", _g_value(rng, f, False)), ("L", _g_list(rng, f)), ("Z", _g_set(rng, f))])
-            return ("T", f, _case_op(rng, rng.choice(["IS NULL", "IS NOT NULL"])), a)
-        if k == 3:
-            a = rng.choice([("S", rng.choice(_INTS)), ("S", None), ("L", [rng.choice(_PATTERNS)]), ("Z", [])])
-            return ("T", f, _case_op(rng, rng.choice(["LIKE", "NOT LIKE"])), a)
-        if k == 4:
-            return ("A", rng.randrange(50), f, ("S", _g_value(rng, f)))
-        if k == 5:
-            return ("B", rng.randrange(56))
-        if k == 6:
-            return ("T", f, rng.choice(["=", "!="]), ("Z", _g_set(rng, f)))          # a set is bound as one parameter
-        if k == 7:
-            return ("T", f, rng.choice(["<", ">", "<=", ">="]), rng.choice([("L", _g_list(rng, f)), ("Z", _g_set(rng, f))]))
-        return ("P", f, ("Z", _g_set(rng, f)))
+    k = rng.randrange(6)
+    if k == 0:
+        return ("T", f, rng.choice(["==", "<>", "IS", "BETWEEN", "", "NOT  IN", " =", "= ", "IN ", "NOT", "ISNULL", "~"]),
+                ("S", _g_value(rng, f)))
+    if k == 1:
+        return ("T", f, _case_op(rng, rng.choice(["IN", "NOT IN"])), ("S", _g_value(rng, f)))
+    if k == 2:
+        a = rng.choice([("S", _g_value(rng, f, False)), ("L", _g_list(rng, f)), ("Z", _g_set(rng, f))])
+        return ("T", f, _case_op(rng, rng.choice(["IS NULL", "IS NOT NULL"])), a)
+    if k == 3:
+        a = rng.choice([("S", rng.choice(_INTS)), ("S", None), ("L", [rng.choice(_PATTERNS)]), ("Z", [])])
+        return ("T", f, _case_op(rng, rng.choice(["LIKE", "NOT LIKE"])), a)
+    if k == 4:
+        return ("A", rng.randrange(50), f, ("S", _g_value(rng, f)))
+    return ("B", rng.randrange(56))
+
+
+def _g_unbindable_leaf(rng, pfx):
+    """accepted by the constructors, refused by sqlite3 when the parameters are bound"""
+    f = pfx + rng.choice(_FIELDS)
+    k = rng.randrange(3)
+    if k == 0:
+        return ("T", f, rng.choice(["=", "!="]), ("Z", _g_set(rng, f)))          # a set is bound as one parameter
+    if k == 1:
+        return ("T", f, rng.choice(["<", ">", "<=", ">="]), rng.choice([("L", _g_list(rng, f)), ("Z", _g_set(rng, f))]))
+    return ("P", f, ("Z", _g_set(rng, f)))
+
+
+def _g_leaf(rng, pfx):
+    f = pfx + rng.choice(_FIELDS)
     k = rng.randrange(12)
     if k <= 2:
         return ("T", f, rng.choice(_OPS_CMP), ("S", _g_value(rng, f, False)))
@@ -921,28 +930,38 @@ def _g_leaf(rng, pfx, malformed):
     return ("T", f, rng.choice(_OPS_CMP), ("S", _g_value(rng, f, False)))
 
 
-def _g_kw(rng, pfx, n, malformed=False):
+def _g_kw(rng, pfx, n):
     names = rng.sample(_FIELDS, min(n, 3))
     out = []
     for nm in names:
         f = pfx + nm
-        r = rng.random()
-        if malformed and r < 0.3:
-            out.append((f, ("Z", _g_set(rng, f))))
-        elif r < 0.7:
+        if rng.random() < 0.7:
             out.append((f, ("S", _g_value(rng, f))))
         else:
             out.append((f, ("L", _g_list(rng, f))))
     return out
 
 
-def _g_cond(rng, pfx, malformed, depth=0):
+def _g_cond(rng, pfx, depth=0):
     if depth < 2 and rng.random() < (0.22 if depth == 0 else 0.12):
         n = rng.choice([0, 1, 2, 2, 3])
-        cs = [_g_cond(rng, pfx, malformed, depth + 1) for _ in range(n)]
-        kw = _g_kw(rng, pfx, rng.choice([0, 0, 1, 2, 3]), malformed)
+        cs = [_g_cond(rng, pfx, depth + 1) for _ in range(n)]
+        kw = _g_kw(rng, pfx, rng.choice([0, 0, 1, 2, 3]))
         return ("O", cs, kw)
-    return _g_leaf(rng, pfx, malformed)
+    return _g_leaf(rng, pfx)
+
+
+def _insert_somewhere(rng, args, leaf):
+    """puts one more condition at top level or into an OR group (in place)"""
+    groups = [c for c in args if c is not None and c[0] == "O"]
+    if groups and rng.random() < 0.4:
+        g = rng.choice(groups)
+        inner = [c for c in g[1] if c[0] == "O"]
+        if inner and rng.random() < 0.5:
+            g = rng.choice(inner)
+        g[1].insert(rng.randint(0, len(g[1])), leaf)
+    else:
+        args.insert(rng.randint(0, len(args)), leaf)
 
 
 def _g_rows(rng, nmax):
@@ -967,15 +986,26 @@ def _g_order(rng, pfx):
 
 
 def _g_scenario(rng, tier, malformed):
+    """malformed: exactly one condition whose construction fails (which exception wins among several depends on
+    the evaluation order of the caller's own expression) and/or conditions that sqlite3 refuses to bind"""
     big = tier != "quick"
     pfx, frm = rng.choice(_FROMS)
     if pfx == "main.t.":
         pfx, frm = "", "SELECT id, a, b, c FROM t"
     ncond = rng.choice([0, 1, 1, 2, 2, 3] + ([4, 5] if big else []))
-    args = [_g_cond(rng, pfx, malformed and rng.random() < 0.6) for _ in range(ncond)]
+    args = [_g_cond(rng, pfx) for _ in range(ncond)]
+    kw = _g_kw(rng, pfx, rng.choice([0, 0, 1, 1, 2, 3]))
+    if malformed:
+        r = rng.random()
+        if r < 0.45 or r > 0.8:
+            for _ in range(rng.choice([1, 1, 2])):
+                _insert_somewhere(rng, args, _g_unbindable_leaf(rng, pfx))
+            if kw and rng.random() < 0.3:
+                kw[0] = (kw[0][0], ("Z", _g_set(rng, kw[0][0])))
+        if r >= 0.45:
+            _insert_somewhere(rng, args, _g_bad_leaf(rng, pfx))
     for _ in range(rng.choice([0, 0, 0, 1, 2])):
         args.insert(rng.randint(0, len(args)), None)
-    kw = _g_kw(rng, pfx, rng.choice([0, 0, 1, 1, 2, 3]), malformed and rng.random() < 0.3)
     return {"v": rng.randrange(1024), "pct": 0, "from": frm, "group": None, "order": _g_order(rng, pfx),
             "call": {"args": args, "kw": kw}, "cols": [pfx + c for c in _BASE_COLS],
             "rows": _g_rows(rng, 8 if big else 6)}
